@@ -374,7 +374,7 @@ class _X:
         self.ints(); self.slices(); self.masks()
         self.state_is("index.final-state", "array back at its baseline after all cases", self.base)
         if self.ro is not None: self.state_is("index.readonly.final-state", "read-only twin untouched after all cases", self.base, self.ro)
-        if n == 3: t.sample("%s n=3: 15 int indices, %d slices, %d masks x get/set/ifelse" % (self.name, len(SS) ** 2 * len(STEPS), 4 + 8 + 16))
+        if n == 3 and self.name in ("IntArray", "V3fArray", "StringArray"): t.sample("%s n=3: 15 int indices, %d slices, %d masks x get/set/ifelse" % (self.name, len(SS) ** 2 * len(STEPS), 4 + 8 + 16))
 
 
 def run_item(item, t):
